@@ -1010,7 +1010,15 @@ func (d *drv) vcClaim(vc *verifiable.W3CCredential, opts *verifiable.CoreClaimOp
 	return out
 }
 
-func (d *drv) credentialStream(n int) {
+// credParams fixes one credential case (also the replay format of this stream).
+type credParams struct {
+	Stream   string `json:"stream"`
+	Key      string `json:"undefined_member"` // member of credentialSubject
+	Value    any    `json:"value"`
+	Birthday int    `json:"birthday"`
+}
+
+func (d *drv) credentialStream(n int, fixed *credParams) {
 	rep := d.rep
 	r := d.cfg.Rng
 	// ToCoreClaim(nil) uses the package-level default loader
@@ -1022,19 +1030,20 @@ func (d *drv) credentialStream(n int) {
 			return
 		}
 		_ = json.Unmarshal([]byte(credentialJSON), &dirty)
-		clean.CredentialSubject["birthday"] = 19000101 + r.Intn(1000000)
-		dirty.CredentialSubject["birthday"] = clean.CredentialSubject["birthday"]
-		key := d.z()
-		var val any = "x"
-		where := "credentialSubject"
+		input := credParams{Stream: "credential", Key: d.z(), Value: "x", Birthday: 19000101 + r.Intn(1000000)}
 		switch r.Intn(3) {
 		case 0:
-			val = map[string]any{"birthday": 1}
+			input.Value = map[string]any{"birthday": 1}
 		case 1:
-			val = nil
+			input.Value = nil
 		}
+		if fixed != nil {
+			input = *fixed
+		}
+		key, val, where := input.Key, input.Value, "credentialSubject"
+		clean.CredentialSubject["birthday"] = input.Birthday
+		dirty.CredentialSubject["birthday"] = input.Birthday
 		dirty.CredentialSubject[key] = val
-		input := map[string]any{"stream": "credential", "undefined_member": where + "/" + key, "value": val, "birthday": clean.CredentialSubject["birthday"]}
 		rep.Evaluations++
 		rep.Count("stream:credential")
 		rep.Distinct(fmt.Sprint(input))
@@ -1215,7 +1224,13 @@ func Run(cfg *common.Config) (*common.Report, error) {
 			return nil, err
 		}
 		if rf.Input.Stream == "credential" || len(rf.Input.Doc) == 0 {
-			d.credentialStream(1)
+			var cf struct {
+				Input credParams `json:"input"`
+			}
+			if err := common.ReadJSON(cfg.Replay, &cf); err != nil {
+				return nil, err
+			}
+			d.credentialStream(1, &cf.Input)
 		} else {
 			d.evalAll([]CaseInput{rf.Input})
 		}
@@ -1242,10 +1257,10 @@ func Run(cfg *common.Config) (*common.Report, error) {
 		}
 		d.evalAll(ins)
 	}
-	gen("inject", cfg.Pick(260, 5000))
+	gen("inject", cfg.Pick(200, 2500))
 	gen("setwrap", cfg.Pick(4, 40))
 	gen("nonabs", cfg.Pick(6, 60))
 	gen("emptykey", cfg.Pick(3, 30))
-	d.credentialStream(cfg.Pick(4, 40))
+	d.credentialStream(cfg.Pick(4, 40), nil)
 	return rep, d.writeShards()
 }
